@@ -18,13 +18,8 @@ impl CipherKind {
     spec fn is_2022(&self) -> bool { self is Aead2022Blake3Aes128Gcm || self is Aead2022Blake3Aes256Gcm || self is Aead2022Blake3ChaCha8Poly1305 || self is Aead2022Blake3ChaCha20Poly1305 }
     spec fn has_eih(&self) -> bool { self is Aead2022Blake3Aes128Gcm || self is Aead2022Blake3Aes256Gcm }
 }
-/// codec/shadowsocks/aead.rs hkdfsha1 (hkdf crate): HKDF-SHA1(salt, ikm, "ss-subkey"), output as long as the salt
-#[verifier::external_body]
-fn ssaead__hkdfsha1(ikm: &[u8], salt: &[u8]) -> (r: Result<Vec<u8>, InvalidLength>)
-    ensures r matches Ok(v) ==> v@ == hkdf_sha1(salt@, ikm@, "ss-subkey"@, salt@.len()),
-        // RFC 5869: expand fails only for more than 255 * HashLen output bytes
-        salt@.len() <= 5100 ==> r is Ok
-{ unimplemented!() }
+/// "ss-subkey" (shadowsocks.org AEAD: HKDF-SHA1 info string)
+spec fn ss_subkey_label() -> Seq<u8> { seq![115u8, 115u8, 45u8, 115u8, 117u8, 98u8, 107u8, 101u8, 121u8] }
 /// aead_2022.rs now(): seconds since the epoch; constant during one decode call
 #[verifier::external_body]
 fn a22__now() -> (r: Result<u64, SystemTimeError>)
@@ -165,7 +160,7 @@ impl<const N: usize> ServerUser<N> {
 
 //@@ octo-squirrel/src/codec/shadowsocks/aead.rs:11-15  fn new_encoder  sha=f0b30e45bde266ed
 spec fn legacy_subkey(kind: CipherKind, key: Seq<u8>, salt: Seq<u8>) -> Seq<u8> {
-    hkdf_sha1(salt, key, "ss-subkey"@, salt.len()).take(key_len_of(kind) as int)
+    hkdf_sha1(salt, key, ss_subkey_label(), salt.len()).take(key_len_of(kind) as int)
 }
 spec fn s2022_subkey(kind: CipherKind, key: Seq<u8>, salt: Seq<u8>) -> Seq<u8> {
     blake3_kdf("shadowsocks 2022 session subkey"@, key + salt).take(key_len_of(kind) as int)
@@ -195,6 +190,22 @@ fn ssaead__new_decoder(kind: CipherKind, key: &[u8], salt: &[u8]) -> (r: Result<
     let key = ssaead__hkdfsha1(key, salt)?;
     let auth = ssaead__new_auth(kind, &key);
     Ok(ChunkDecoder::new(auth))
+}
+
+//@@ octo-squirrel/src/codec/shadowsocks/aead.rs:24-29  fn hkdfsha1  sha=d2a19fc8c51673ee
+#[verifier::external_body] fn verif_lit_8366e3dbc5() -> (r: &'static [u8]) ensures r@ =~= seq![115u8, 115u8, 45u8, 115u8, 117u8, 98u8, 107u8, 101u8, 121u8] { b"ss-subkey" }
+fn ssaead__hkdfsha1(ikm: &[u8], salt: &[u8]) -> (r: Result<Vec<u8>, InvalidLength>)
+    ensures
+        //#C03 C06
+        // shadowsocks.org AEAD: session sub-key = HKDF-SHA1(key = pre-shared key, salt, info = "ss-subkey"), as long as the salt
+        r matches Ok(v) ==> v@ == hkdf_sha1(salt@, ikm@, ss_subkey_label(), salt@.len()),
+        // RFC 5869: expand fails only for more than 255 * HashLen output bytes
+        salt@.len() <= 5100 ==> r is Ok,
+{
+    let hk = Hkdf::<Sha1>::new(Some(salt), ikm);
+    let mut okm = vec![0; salt.len()];
+    hk.expand(verif_lit_8366e3dbc5(), &mut okm)?;
+    Ok(okm)
 }
 
 //@@ octo-squirrel/src/codec/shadowsocks/aead.rs:30-33  fn new_auth  sha=8e34244a55e2383f
